@@ -106,6 +106,17 @@ pub fn plan(tier: &str) -> Plan {
     for sc in scenarios(false) {
         units.push(alt_unit(format!("alt/c01/{}", sc.name()), cfg.clone(), Some(2), body(sc, oracle), 1));
     }
+    // the same racing closers at the granularity of the runtime's own steps: a decision point before every
+    // atomic, lock, map and channel operation of the actor's task and of the closers (the windows inside
+    // set_status' clean-up, between two port polls, ... only exist at this granularity)
+    let s_kinds: &'static [vsched::PointKind] = &[vsched::PointKind::Atomic, vsched::PointKind::Lock, vsched::PointKind::Map, vsched::PointKind::Channel];
+    let fine = ExecCfg {
+        filter: Some(std::sync::Arc::new(move |k, _l, t: &vsched::TaskInfo| s_kinds.contains(&k) && (t.role == "closer" || (t.role == "lib" && t.name.as_deref() == Some("A"))))),
+        ..Default::default()
+    };
+    for sc in scenarios(false).into_iter().filter(|s| s.closer == Closer::StopDrainKill) {
+        units.push(Unit::explore_split(Job::new(format!("fine/c01/{}", sc.name()), fine.clone(), Some(if thorough { 3 } else { 2 }), body(sc, oracle)), 8));
+    }
     Plan {
         property: "C01",
         units,
